@@ -271,7 +271,7 @@ SitesOf(kind) ==
     [] kind = "fracdigits" -> {<<"fraction-digits", "type">>}
     [] kind = "pattern" -> {<<"pattern", "type">>}
     [] OTHER -> {}
-QuickIdSites == {"module", "leaf", "prefix", "import", "typedef", "bit", "case", "feature"}
+QuickIdSites == {"module", "leaf", "prefix", "typedef", "bit", "case"}
 SitesFor(kind, full) == IF full \/ kind # "identifier" THEN SitesOf(kind) ELSE {s \in SitesOf(kind) : s[1] \in QuickIdSites}
 ArgStmt(kw, parentKw, a) ==
   LET b == Mk(kw, 1, parentKw) IN
@@ -477,5 +477,32 @@ GramBound(kind, full) ==
     [] kind = "idref" -> IF full THEN 6 ELSE 5
     [] kind = "identifier" -> IF full THEN 4 ELSE 3
     [] OTHER -> 3
-GramCands(kind, full) == IF GramAlphabet(kind) = {} THEN {} ELSE WordsUpTo(GramAlphabet(kind), GramBound(kind, full))
+GramCands(kind, full) ==
+  IF GramAlphabet(kind) = {} THEN {}
+  ELSE IF kind \in {"range", "length"} /\ ~full
+       THEN WordsUpTo({"1", ".", "|"}, 5) \cup WordsUpTo(GramAlphabet(kind), 4)     \* quick: blanks only up to length 4
+  ELSE WordsUpTo(GramAlphabet(kind), GramBound(kind, full))
+
+(* ---- histories of parses with different extension cardinality functions ----
+   The third argument of parse.Parse (nil, a function returning nothing, several different non-empty functions: optional,
+   mandatory, repeated extension substatements, on statements with an RFC table and on statements without one) is part
+   of the input; a history runs parses with different functions one after the other in one process and every parse is
+   judged by the function IT was given (ExpectX).                                                              *)
+ExtCells(e) == UNION {{<<p, c>> : c \in DOMAIN ExtFns[e][p]} : p \in DOMAIN ExtFns[e]}
+\* trees for one function: every cell of it with 0, 1, 2 copies, and the same parents under the other functions' keywords
+ExtTreesOf(e) == {CardTree(x[1], x[2], n) : x \in ExtCells(e), n \in 0..2}
+PlainTrees == {CardTree("container", "description", n) : n \in 0..2} \cup {CardTree("leaf", "type", n) : n \in 0..2}
+              \cup {CardTree("list", "key", n) : n \in 1..2} \cup {CardTree("typedef", "units", 1), CardTree("module", "contact", 1)}
+\* what is parsed under function e: its own trees, the plain ones, and the trees of every other function
+\* (their extension cells are then unjudged, their RFC part is judged)
+TreesUnder(e) == ExtTreesOf(e) \cup PlainTrees \cup UNION {{CardTree(x[1], x[2], 1) : x \in ExtCells(o)} : o \in ExtNames \ {e}}
+ExtTable(e) == SetToSeq({[p |-> x[1], c |-> x[2], min |-> ExtFns[e][x[1]][x[2]][1], max |-> ExtFns[e][x[1]][x[2]][2]] : x \in ExtCells(e)})
+\* one plan: per function the block of trees parsed under it, and every order in which the blocks are run
+\* (every ordered k-tuple of distinct functions, then nil once more); the recorder runs order by order, block by block
+ExtPlan(k) ==
+  LET names == SetToSeq(ExtNames) IN
+  {[label |-> <<"ext", "", "">>,
+    blocks |-> [i \in 1..Len(names) |-> [ext |-> names[i], trees |-> SetToSeq(TreesUnder(names[i]))]],
+    orders |-> SetToSeq({Append(h, "nil") : h \in {x \in [1..k -> ExtNames] : \A i, j \in 1..k : i # j => x[i] # x[j]}}),
+    exts |-> [i \in 1..Len(names) |-> [name |-> names[i], cells |-> ExtTable(names[i])]]]}
 =============================================================================
